@@ -47,7 +47,7 @@ def matrix_lifecycle_part(ev, fnd, unknown, tier):
             continue
         init = {"objs": [{"live": False, "f": [], "kind": "none", "src": 0} for _ in range(nslots)]}
         g = vf.StateGraph.from_tlc(r.outfile, init_id=init)
-        ev.add_tlc(part, r, {"graph_states": len(g.obs), "graph_edges": g.nedges, "cfg": cfg})
+        ev.add_tlc(part, r, {"graph_states": len(g.obs), "graph_edges": g.nedges, "transitions_by_action": vf.by_action(g), "cfg": cfg})
         os.remove(r.outfile)
         work = os.path.join(vf.BUILD, "work", "%s_%s_%d" % (PROP, part, os.getpid()))
         env = dict(ASAN_ENV)
@@ -85,7 +85,7 @@ def lifecycle_part(ev, fnd, unknown, part, cfg, slots, bins, shards, per_state=N
         return 0
     init = {"objs": [{"live": False, "k_set": [], "filt": []} for _ in range(slots)], "buf": {"some": False, "k_set": []}}
     g = vf.StateGraph.from_tlc(r.outfile, init_id=init)
-    ev.add_tlc(part, r, {"graph_states": len(g.obs), "graph_edges": g.nedges, "cfg": cfg})
+    ev.add_tlc(part, r, {"graph_states": len(g.obs), "graph_edges": g.nedges, "transitions_by_action": vf.by_action(g), "cfg": cfg})
     work = os.path.join(vf.BUILD, "work", "%s_%s_%d" % (PROP, part, os.getpid()))
     env = dict(ASAN_ENV)
     env["VF_SLOTS"] = str(slots)
